@@ -10,6 +10,13 @@ ENTRIES = ['rsbdd::parser::SymbolicBDD::tokenize', 'rsbdd::parser::ParsedFormula
 
 # std / core functions that panic by documented contract (exact resolved or declared paths, generic args stripped)
 PANIC_CALLS = {
+    # a requested size the caller chooses: `capacity overflow` panics (and allocation aborts) when it is not bounded by something that exists
+    'std::vec::Vec::with_capacity': 'capacity (Vec::with_capacity)', 'std::string::String::with_capacity': 'capacity (String::with_capacity)',
+    'std::vec::Vec::reserve': 'capacity (Vec::reserve)', 'std::vec::Vec::reserve_exact': 'capacity (Vec::reserve_exact)', 'std::vec::Vec::resize': 'capacity (Vec::resize)',
+    'std::vec::from_elem': 'capacity (vec![x; n])', 'alloc::vec::from_elem': 'capacity (vec![x; n])',
+    'std::str::<impl str>::repeat': 'capacity (str::repeat)', 'alloc::str::<impl str>::repeat': 'capacity (str::repeat)', 'std::slice::<impl [T]>::repeat': 'capacity (slice::repeat)',
+    'std::collections::HashMap::with_capacity': 'capacity (HashMap::with_capacity)', 'std::collections::HashMap::with_capacity_and_hasher': 'capacity (HashMap::with_capacity_and_hasher)',
+    'std::collections::HashSet::with_capacity_and_hasher': 'capacity (HashSet::with_capacity_and_hasher)', 'std::collections::VecDeque::with_capacity': 'capacity (VecDeque::with_capacity)',
     'std::option::Option::unwrap': 'unwrap', 'std::option::Option::expect': 'expect',
     'std::result::Result::unwrap': 'unwrap', 'std::result::Result::expect': 'expect',
     'std::result::Result::unwrap_err': 'unwrap_err', 'std::result::Result::expect_err': 'expect_err',
@@ -140,7 +147,11 @@ class Discharger:
         """engine S explored `fn` completely and no abstract world reaches a panic / failed index / unwrap of None"""
         if fn in self.s_cache: return self.s_cache[fn]
         ok = False; why = ''
-        if fn in self.E.specs and self.E.thir(fn) is not None:
+        if fn in self.E.specs and getattr(self.E.specs[fn], 'exclude', None) and any(self.E.specs[fn].exclude.values()):
+            # the specification leaves some shapes of an argument out of its worlds (Subtree / Reference syntax nodes): a panic in exactly
+            # those arms is invisible to the exploration, so "no world panics" says nothing about it - the no-producer rule R10 has to
+            why = 'engine S explores %s without the argument shapes %s' % (fn.split('::')[-1], sorted(v for vs in self.E.specs[fn].exclude.values() for v in vs))
+        elif fn in self.E.specs and self.E.thir(fn) is not None:
             try:
                 from absint import Diverge
                 res = self.E.explore(fn)
@@ -336,6 +347,157 @@ class Discharger:
     def _same_site(self, e, s):
         return e['loc'] == s.loc or e.get('fn_loc') == s.loc
 
+    # R14: a requested capacity that is a constant, or the length of a collection that already exists
+    def R14(self, s):
+        if s.kind != 'call' or not s.what.startswith('capacity'): return None
+        t = self.thir(s)
+        if t is None: return None
+        lets = {}
+        for b in walk(t['body']):
+            if b['k'] == 'Block':
+                for st in b['stmts']:
+                    if st['k'] == 'Let' and st.get('init') is not None:
+                        q = st['pat']
+                        while q['k'] in ('AscribeUserType', 'Deref', 'DerefPattern'): q = q.get('sub') or q.get('subpattern')
+                        if q and q['k'] == 'Binding' and not q.get('mutable'): lets[q['var']] = st['init']
+        def bounded(e, depth=0):
+            while e['k'] in ('Use', 'Borrow', 'Deref', 'NeverToAny', 'Cast'): e = e.get('source') or e.get('arg')
+            if e['k'] == 'Literal' and e.get('lit') == 'Int': return 'the constant %s' % e['value']
+            if e['k'] == 'Call' and (callee_name(e) or '').split('::')[-1] == 'len' and e['args']: return 'the length of an existing collection'
+            if e['k'] in ('VarRef', 'UpvarRef') and e['var'] in lets and depth < 4: return bounded(lets[e['var']], depth + 1)
+            if e['k'] == 'Binary' and e['op'] in ('Add', 'Sub', 'Mul') :
+                l, r = bounded(e['lhs'], depth + 1), bounded(e['rhs'], depth + 1)
+                if l and r and (e['op'] != 'Mul' or 'constant' in l + r): return '%s %s %s' % (l, e['op'].lower(), r)
+            if e['k'] == 'Call' and ((__import__('facts').callee_decl(e) or '') in ('std::cmp::Ord::max', 'std::cmp::Ord::min') or (callee_name(e) or '') in ('std::cmp::max', 'std::cmp::min')):
+                parts = [bounded(a, depth + 1) for a in e['args']]
+                if all(parts): return 'max/min of ' + ' and '.join(parts)
+            return None
+        for e in walk(t['body']):
+            if e['k'] == 'Call' and self._same_site(e, s) and callee_name(e) and callee_name(e).split('::')[-1] in ('with_capacity', 'with_capacity_and_hasher', 'reserve', 'reserve_exact', 'resize', 'from_elem', 'repeat'):
+                nm = callee_name(e).split('::')[-1]
+                arg = e['args'][0] if nm.startswith('with_capacity') else e['args'][1] if len(e['args']) > 1 else None
+                why = bounded(arg) if arg is not None else None
+                if why: return 'R14: the requested size is %s' % why
+                if arg is not None and not self.user_number(s.fn.split('::{closure')[0], arg):
+                    return 'R14: the requested size does not derive from a number the user supplies (numeric command-line options, constants written in the formula)'
+        return None
+
+    def user_number(self, base, e):
+        """does expression e (inside function `base`) mention a value that derives from a user-supplied number?  Sources: fields of the parsed
+        command line, the constant of a counting comparison, the payload of a number token.  Propagated through lets, assignments, closures
+        (which share their function's variables) and arguments of calls to functions of the workspace, to a fixed point."""
+        T = self.taint()
+        def mentions(x):
+            for y in walk(x):
+                if y['k'] in ('VarRef', 'UpvarRef') and (base, y['var']) in T: return True
+                if self._is_source(base, y): return True
+            return False
+        return mentions(e)
+
+    def _args_vars(self):
+        if hasattr(self, '_argsv'): return self._argsv
+        out = set()
+        for c in self.F.crates:
+            if c.kind == 'test': continue
+            for name, t in c.thir.items():
+                b0 = name.split('::{closure')[0]
+                for b in walk(t['body']):
+                    if b['k'] != 'Block': continue
+                    for st in b['stmts']:
+                        if st['k'] == 'Let' and st.get('init') is not None:
+                            i0 = st['init']
+                            while i0['k'] in ('Use', 'Borrow', 'Deref', 'NeverToAny'): i0 = i0.get('source') or i0.get('arg')
+                            if i0['k'] == 'Call' and (callee_name(i0) or '').split('::')[-1] in ('parse', 'parse_from') and 'Parser' in (callee_name(i0) or ''):
+                                q = st['pat']
+                                while q and q['k'] in ('AscribeUserType', 'Deref', 'DerefPattern'): q = q.get('sub') or q.get('subpattern')
+                                if q and q['k'] == 'Binding': out.add((b0, q['var']))
+        self._argsv = out
+        return out
+
+    def _is_source(self, base, y):
+        if y['k'] == 'Field':
+            l = y['lhs']
+            while l['k'] in ('Use', 'Borrow', 'Deref', 'NeverToAny'): l = l.get('source') or l.get('arg')
+            if l['k'] in ('VarRef', 'UpvarRef') and (base, l['var']) in self._args_vars():
+                ty = y.get('ty', {})
+                return 'usize' in (ty.get('s') or '') or 'u64' in (ty.get('s') or '') or ty.get('k') in ('Uint', 'Int')
+        return False
+
+    def taint(self):
+        if hasattr(self, '_taint'): return self._taint
+        T = set()
+        bodies = []
+        for c in self.F.crates:
+            if c.kind == 'test': continue
+            for name, t in c.thir.items(): bodies.append((name.split('::{closure')[0], name, t))
+        def pat_vars(p, acc):
+            if not isinstance(p, dict): return
+            if p.get('k') == 'Binding': acc.append(p['var'])
+            for sp in p.get('subs') or []: pat_vars(sp['pat'], acc)
+            for sp in p.get('pats') or []: pat_vars(sp, acc)
+            if p.get('sub'): pat_vars(p['sub'], acc)
+        # pattern sources: the bound of a counting comparison, the payload of a number token
+        def pat_sources(p, base):
+            if not isinstance(p, dict): return
+            if p.get('k') == 'Variant' and p.get('variant') in ('CountableConst', 'Countable'):
+                for sp in p.get('subs') or []:
+                    if (p['variant'] == 'CountableConst' and sp['field'] == 2) or p['variant'] == 'Countable':
+                        acc = []; pat_vars(sp['pat'], acc)
+                        for v in acc: T.add((base, v))
+            for sp in p.get('subs') or []: pat_sources(sp['pat'], base)
+            for sp in p.get('pats') or []: pat_sources(sp, base)
+            if p.get('sub'): pat_sources(p['sub'], base)
+        for base, name, t in bodies:
+            for x in walk(t['body']):
+                if x['k'] == 'Match':
+                    for a in x['arms']: pat_sources(a['pat'], base)
+                if x['k'] == 'Let': pat_sources(x.get('pat'), base)
+                if x['k'] == 'Block':
+                    for st in x['stmts']:
+                        if st['k'] == 'Let': pat_sources(st['pat'], base)
+        params = {}
+        for c in self.F.crates:
+            if c.kind == 'test': continue
+            for name, t in c.thir.items():
+                if '{closure' in name: continue
+                params[name] = [([] if 'pat' not in p else (lambda a: (pat_vars(p['pat'], a), a)[1])([])) for p in t['params']]
+        changed = True
+        def mentions(base, x):
+            for y in walk(x):
+                if y['k'] in ('VarRef', 'UpvarRef') and (base, y['var']) in T: return True
+                if self._is_source(base, y): return True
+            return False
+        rounds = 0
+        while changed and rounds < 12:
+            changed = False; rounds += 1
+            for base, name, t in bodies:
+                for x in walk(t['body']):
+                    if x['k'] == 'Block':
+                        for st in x['stmts']:
+                            if st['k'] == 'Let' and st.get('init') is not None and mentions(base, st['init']):
+                                acc = []; pat_vars(st['pat'], acc)
+                                for v in acc:
+                                    if (base, v) not in T: T.add((base, v)); changed = True
+                    elif x['k'] in ('Assign', 'AssignOp') and mentions(base, x['rhs']):
+                        l = x['lhs']
+                        while l['k'] in ('Use', 'Borrow', 'Deref', 'Field', 'Index'): l = l.get('source') or l.get('arg') or l.get('lhs')
+                        if l['k'] in ('VarRef', 'UpvarRef') and (base, l['var']) not in T: T.add((base, l['var'])); changed = True
+                    elif x['k'] == 'Call' and callee_name(x) in params:
+                        g = callee_name(x)
+                        for i, a in enumerate(x['args']):
+                            if i < len(params[g]) and mentions(base, a):
+                                for v in params[g][i]:
+                                    if (g, v) not in T: T.add((g, v)); changed = True
+                    elif x['k'] == 'Match':
+                        # a value matched against patterns hands its taint to the bindings
+                        if mentions(base, x['scrutinee']):
+                            for a in x['arms']:
+                                acc = []; pat_vars(a['pat'], acc)
+                                for v in acc:
+                                    if (base, v) not in T: T.add((base, v)); changed = True
+        self._taint = T
+        return T
+
     # R10: no producer of the offending value on the entry paths
     def R10(self, s):
         if s.what != 'panic': return None
@@ -358,10 +520,19 @@ class Discharger:
                     for e in walk(tt['body']):
                         if e['k'] == 'Adt' and canon(e['adt']) == 'rsbdd::parser::SymbolicBDD' and e['variant'] == 'Subtree': producers.add(name)
                         if e['k'] == 'Call' and callee_name(e) == s.fn: callers.add(name.split('::{closure')[0])
+            # a new helper that calls var_is_free (or builds the Subtree node) runs on behalf of the functions of the pinned tree it was split out of
+            import facts as _facts
+            for c_ in self.F.crates:
+                for h in [x for x in list(callers) if x not in _facts.baseline_fns() and x in c_.thir]:
+                    roots = _facts.baseline_roots(c_, h)
+                    if roots: callers.discard(h); callers |= set(roots)
+                for h in [x for x in list(producers) if x.split('::{closure')[0] not in _facts.baseline_fns() and x.split('::{closure')[0] in c_.thir]:
+                    roots = _facts.baseline_roots(c_, h.split('::{closure')[0])
+                    if roots: producers.discard(h); producers |= set(roots)
             if producers <= {'rsbdd::parser::ParsedFormula::eval_recursive::{closure#%d}' % i for i in range(12)} | {'rsbdd::parser::ParsedFormula::eval_recursive'} and \
                callers <= {s.fn, 'rsbdd::parser::ParsedFormula::new_with_env'}:
                 return 'R10: Subtree nodes are produced only inside the evaluator (%d site(s)); var_is_free is called only on parser output (callers: %s)' % (len(producers), sorted(c.split('::')[-1] for c in callers))
-        if s.fn.startswith('rsbdd::parser::ParsedFormula::replace_var::{closure'):
+        if s.fn.split('::{closure')[0] == 'rsbdd::parser::ParsedFormula::replace_var':
             # ReferenceContents::BDD has no producer in the workspace
             producers = set()
             for c in self.F.crates:
@@ -372,10 +543,14 @@ class Discharger:
                     for e in walk(tt['body']):
                         if e['k'] == 'Adt' and canon(e['adt']) == 'rsbdd::parser::ReferenceContents' and e['variant'] == 'BDD': producers.add(name)
             t = lib.thir.get(s.fn)
-            arms = [a for m in walk(t['body']) if m['k'] == 'Match' for a in m['arms'] if any(x['k'] == 'Call' and (callee_name(x) or '').startswith(('core::panicking', 'std::rt::panic')) for x in walk(a['body']))]
+            def panics(b): return any(x['k'] == 'Call' and (callee_name(x) or '').startswith(('core::panicking', 'std::rt::panic')) for x in walk(b))
+            arms = [a for m in walk(t['body']) if m['k'] == 'Match' for a in m['arms'] if panics(a['body'])]
+            # the innermost arms that hold the panic (an outer `Reference(name) => match ..` arm merely contains one)
+            arms = [a for a in arms if not any(a2 is not a and any(x is a2['body'] for x in walk(a['body'])) for a2 in arms)]
             def is_bdd(p):
                 while p['k'] in ('Deref', 'DerefPattern'): p = p['sub']
-                return p['k'] == 'Variant' and p['variant'] == 'BDD' and canon(p['adt']) == 'rsbdd::parser::ReferenceContents'
+                if p['k'] == 'Variant' and p['variant'] == 'BDD' and canon(p['adt']) == 'rsbdd::parser::ReferenceContents': return True
+                return p['k'] == 'Variant' and canon(p['adt']) == 'std::option::Option' and p['variant'] == 'Some' and bool(p.get('subs')) and is_bdd(p['subs'][0]['pat'])
             if not producers and len(arms) == 1 and is_bdd(arms[0]['pat']):
                 return 'R10: ReferenceContents::BDD is never constructed in the workspace'
         return None
@@ -451,6 +626,29 @@ def r9_guard(F):
         pushes = [x for x in walk(body) if x['k'] == 'Call' and callee_name(x) == 'std::vec::Vec::push']
         guarded = [x for x in walk(body) if x['k'] in ('If', 'Break', 'Continue', 'Return', 'Loop') or (x['k'] == 'Match' and x.get('source') == 'Normal')]
         if len(pushes) == 1 and not guarded: loops.append((T, root_var(pushes[0]['args'][0])))
+    # `while samples.len() < T { .. samples.push(..) .. }`: on exit the vector holds at least T samples
+    wl = []
+    flow.scan(fl, main['body'], {}, lambda x: x.get('k') == 'Loop', wl)
+    for node, env in wl:
+        b = node['body']
+        while b['k'] in ('Use', 'NeverToAny') or (b['k'] == 'Block' and not b['stmts'] and b['expr'] is not None): b = b['source'] if b['k'] != 'Block' else b['expr']
+        if b['k'] != 'If' or b.get('else') is None or b['cond']['k'] == 'Let': continue
+        el = b['else']
+        for _ in range(8):
+            if el['k'] in ('Use', 'NeverToAny'): el = el['source']
+            elif el['k'] == 'Block' and not el['stmts'] and el['expr'] is not None: el = el['expr']
+            elif el['k'] == 'Block' and len(el['stmts']) == 1 and el['expr'] is None and el['stmts'][0]['k'] == 'Expr': el = el['stmts'][0]['expr']
+            else: break
+        if el['k'] != 'Break': continue
+        c = strip(b['cond'])
+        if not (c['k'] == 'Binary' and c['op'] in ('Lt', 'Gt')): continue
+        small, big = (c['lhs'], c['rhs']) if c['op'] == 'Lt' else (c['rhs'], c['lhs'])
+        sm = strip(small)
+        if not (sm['k'] == 'Call' and (callee_name(sm) or '').split('::')[-1] == 'len' and root_var(sm['args'][0]) is not None): continue
+        W = root_var(sm['args'][0])
+        pushes = [x for x in walk(b['then']) if x['k'] == 'Call' and callee_name(x) == 'std::vec::Vec::push' and root_var(x['args'][0]) == W]
+        other = [x for x in walk(b['then']) if x['k'] == 'Call' and (callee_name(x) or '').split('::')[-1] in ('pop', 'clear', 'truncate', 'remove', 'drain', 'swap_remove') and x['args'] and root_var(x['args'][0]) == W]
+        if pushes and not other: loops.append((fl.ev(big, env), W))
     if not loops: return False, 'no sampling loop `for _ in 0..T { samples.push(..) }` found'
     # variables that stand for a sample vector W (directly, or returned in a tuple from an inlined helper block)
     def aliases(W):
@@ -490,11 +688,18 @@ def r9_guard(F):
                 b = fl.ev(ct['body'], {pv: ('bound', 0)})
                 return positive(b, ('bound', 0))
         return False
+    # only calls that lead to `stats` need the samples (a report function that is handed the finished statistics does not index anything)
+    def reaches_stats(fn, seen=()):
+        if fn == 'rsbdd::stats': return True
+        t_ = binc.ithir.get(fn)
+        if t_ is None or fn in seen: return False
+        return any(x['k'] == 'Call' and callee_name(x) in binc.ithir and reaches_stats(callee_name(x), seen + (fn,)) for x in walk(t_['body']))
     for node, env in calls:
-        arg = root_var(node['args'][0]) if node['args'] else None
+        if not reaches_stats(callee_name(node)): continue
+        args_ = [root_var(a) for a in node['args']]
         ok = False
         for T, W in loops:
-            if arg is not None and arg in aliases(W) and any(pol and positive(c, T) for c, pol in env.get('#conds', ())): ok = True
+            if any(a is not None and a in aliases(W) for a in args_) and any(pol and positive(c, T) for c, pol in env.get('#conds', ())): ok = True
         if not ok:
             return False, 'the call of %s at %s is not under a condition that implies at least one sample (conditions: %s)' % (
                 callee_name(node).split('::')[-1], node.get('loc'), [(flow.show(c)[:80], p) for c, p in env.get('#conds', ())])
@@ -509,7 +714,34 @@ def id_format_reason(s, F):
     any other text the user controls"""
     import re as _re
     base = s.fn.split('::{closure')[0]
-    if not base.endswith('Labeller>::node_id') or F is None: return None
+    if F is None: return None
+    if not base.endswith('Labeller>::node_id'):
+        # a helper `fn fixed_id(name: &'static str) -> Id { Id::new(name).unwrap_or_else(|e| panic!(..)) }`: dead when every caller passes an identifier
+        import facts as _facts
+        if base in _facts.baseline_fns(): return None
+        th = None
+        for c in F.crates:
+            th = c.thir.get(base) or th
+        if th is None: return None
+        pvars = [p['pat']['var'] for p in th['params'] if 'pat' in p and p['pat'].get('k') == 'Binding']
+        news = [e for e in walk(th['body']) if e['k'] == 'Call' and (callee_name(e) or '').endswith('dot::Id::new')]
+        def rootv(x):
+            while x['k'] in ('Use', 'Borrow', 'Deref', 'NeverToAny', 'PointerCoercion') or (x['k'] == 'Call' and x['args'] and (callee_name(x) or '').split('::')[-1] in ('to_string', 'into', 'to_owned', 'from', 'clone')):
+                x = x.get('source') or x.get('arg') or x['args'][0]
+            return x.get('var') if x['k'] in ('VarRef', 'UpvarRef') else None
+        if len(news) != 1 or rootv(news[0]['args'][0]) not in pvars: return None
+        idx = pvars.index(rootv(news[0]['args'][0]))
+        lits = []
+        for c in F.crates:
+            for nm, t2 in c.thir.items():
+                for e in walk(t2['body']):
+                    if e['k'] == 'Call' and callee_name(e) == base:
+                        a = e['args'][idx]
+                        while a['k'] in ('Use', 'Borrow', 'Deref', 'NeverToAny', 'PointerCoercion'): a = a.get('source') or a.get('arg')
+                        if a['k'] == 'Literal' and a.get('lit') == 'Str' and _re.fullmatch(r'[A-Za-z_][A-Za-z0-9_]*', a['value']): lits.append(a['value'])
+                        else: return None
+        if not lits: return None
+        return 'R13: the helper builds ids only from the constant identifiers %s' % sorted(set(lits))
     t = None
     for c in F.crates:
         t = getattr(c, 'ithir', c.thir).get(base) or t
